@@ -4,7 +4,7 @@
    the API calls; all schedules = all label sequences; repaired code, fixes/C17.patch).
    Specification: spec/SeederSpec.v. *)
 From Coq Require Import NArith List Bool.
-From LV Require Import model.Seeder spec.SeederSpec proofs.SeederProofs proofs.SeederQueues proofs.SeederSessions proofs.SeederLifetime proofs.SeederCounts.
+From LV Require Import model.Seeder spec.SeederSpec proofs.SeederProofs proofs.SeederQueues proofs.SeederSessions proofs.SeederLifetime proofs.SeederCounts proofs.SeederRefine.
 Import ListNotations.
 Local Open Scope N_scope.
 
@@ -107,6 +107,27 @@ Theorem C17_resume_no_creation : forall cfg st rq ss,
   \/ snd (reader_top v_fixed cfg st rq) = [EMisb (r_peer rq) (r_serial rq)] /\ s_orig ss <> r_start rq.
 Proof. exact resume_no_creation. Qed.
 
+(* The lifetime rule that the executable specification applies to the implementation's logs
+   (SeederSpec.life_step, folded by [lifetimes]: a request resumes the peer's live session with
+   that id, is a mismatch when its selector differs, otherwise opens a new session and, when the
+   peer already holds three, drops the OLDEST; an unregistration drops all) simulates the model:
+   at every reachable state a rule state is related to the model state (per peer the same
+   session ids in the same order with the same creators and selector starts), and the reader's
+   processing of a request or an unregistration moves both in lockstep with the predicted
+   outcome. *)
+Theorem C17_lifetime_simulation : forall cfg db ops,
+  sorted_keys db ->
+  let st := fst (run v_fixed cfg db (init cfg) ops) in
+  exists m, life_rel m st /\
+    (forall rq, st_reader st = RTop rq ->
+       let '(st', evs) := reader_top v_fixed cfg st rq in
+       let '(m', e) := life_step (c_maxchunks cfg) m (SReq rq) in
+       life_rel m' st' /\ outcome_agrees e rq st' evs) /\
+    (forall p rest, st_reader st = RIdle -> st_chunreg st = p :: rest ->
+       exists st' evs, step v_fixed cfg db st OReadUnreg = Some (st', evs) /\
+                       life_rel (fst (life_step (c_maxchunks cfg) m (SUnreg p))) st').
+Proof. exact lifetime_simulation. Qed.
+
 (* Chunk counts (repaired code).  Whenever the reader is between two requests, every request
    that produced a response got exactly as many responses as chunks it asked for, or the done
    response of its session was produced by this request or an EARLIER one (requests are served
@@ -156,6 +177,7 @@ Print Assumptions C17_spec_equal_decides.
 Print Assumptions C17_peer_sessions_exact.
 Print Assumptions C17_session_resumable.
 Print Assumptions C17_resume_no_creation.
+Print Assumptions C17_lifetime_simulation.
 Print Assumptions C17_requests_complete.
 Print Assumptions C17_requests_bounded.
 Print Assumptions C17_requests_never_exceed.
